@@ -78,9 +78,10 @@ Holds(c, r) ==
     [] c = "CycleIsReal" -> r.obs.dl => /\ Len(r.obs.cyc) >= 2 /\ SetOf(r.obs.cyc) \subseteq PostActive(r)
                                         /\ InCyc(r.obs.cyc, WFp(r))
     [] c = "VictimRule" -> (r.act.op = "watchdog" /\ Len(r.obs.precyc) > 0) =>
-                              /\ r.obs.victim # NoOne /\ r.obs.victim \in VictimsOf(SetOf(r.obs.precyc) \cap active)
-                              /\ \A q \in Res : r.post.owner[q] # r.obs.victim
-                              /\ r.obs.victim \notin PostActive(r)
+                              /\ (r.obs.victim # NoOne \/ SetOf(r.obs.precyc) \cap SetOf(r.obs.killed) # {})      \* (a member that is late anyway may be the one that goes)
+                              /\ (r.obs.victim # NoOne => /\ r.obs.victim \in VictimsOf(SetOf(r.obs.precyc) \cap active)
+                                                          /\ \A q \in Res : r.post.owner[q] # r.obs.victim
+                                                          /\ r.obs.victim \notin PostActive(r))
                               /\ ~InCyc(r.obs.precyc, WFp(r))
     [] c = "EndedOwnNothing" -> /\ (r.act.op \in {"complete", "abort", "kill"} => r.act.o \notin PostActive(r))
                                 /\ \A o \in Ops \ PostActive(r) : \A q \in Res : r.post.owner[q] # o
